@@ -182,8 +182,9 @@ theorem combining_mark_name_loses_field :
     (parseMsg asciiWord (Msg.render ⟨some "Foo".toList, ['x', '́'], .gotLast, "'a'".toList,
       "Expected <class 'int'>".toList⟩)).field = none := by decide
 
-/-- findings `no-path:unnamed-inner-field:deser-collection`, `no-path:unhashable:deser-set`: texts
-    that deserialization still raises without any path — bare, and with the class prefix that
+/-- former findings `no-path:unnamed-inner-field:deser-collection`, `no-path:unhashable:deser-set`
+    (fixed by /repo 23519e1; a regression that re-opens them produces these texts again): texts
+    that deserialization raised without any path — bare, and with the class prefix that
     `raise_errs_if_needed` adds — give no field (or, for an unnamed Enum item, the field `None`) -/
 theorem deser_foreign_texts_no_field :
     (parseMsg asciiWord "Expected <class 'int'>; Got 'x'".toList).field = none ∧
@@ -566,6 +567,224 @@ theorem two_phase_example :
     let doc : List (String × PyVal) := [("i", .int (-1)), ("s", .int 5)]
     invalidFields O c doc fields = ["i", "s"] ∧ phaseOneInvalid O doc fields = ["s"] ∧
     deserCollected O c doc doc fields = ["s"] := by
+  decide
+
+/-! ### deserialization, phase one: where the rejection is raised (sites) -/
+
+theorem p1First_isSome (O : Oracles) (f : FieldDecl) (xs : List PyVal) (i : Nat) :
+    (p1First O f i xs).isSome = xs.any (p1Scalar O f) := by
+  induction xs generalizing i with
+  | nil => rfl
+  | cons x xs ih =>
+    simp only [p1First, List.any_cons]
+    cases p1Scalar O f x <;> simp [ih]
+
+theorem p1FirstZip_isSome (O : Oracles) (fs : List FieldDecl) (xs : List PyVal) (i : Nat) :
+    (p1FirstZip O i fs xs).isSome = p1Zip O fs xs := by
+  induction fs generalizing xs i with
+  | nil => cases xs <;> rfl
+  | cons f fs ih =>
+    cases xs with
+    | nil => rfl
+    | cons x xs =>
+      simp only [p1FirstZip, p1Zip]
+      cases p1Scalar O f x <;> simp [ih]
+
+theorem p1FirstEntry_isSome (O : Oracles) (scr : List (Option String)) (name : String)
+    (kf vf : FieldDecl) (kvs : List (PyVal × PyVal)) :
+    (p1FirstEntry O scr name kf vf kvs).isSome =
+      kvs.any (fun kv => p1Scalar O kf kv.1 || p1Scalar O vf kv.2) := by
+  induction kvs with
+  | nil => rfl
+  | cons kv kvs ih =>
+    obtain ⟨k, x⟩ := kv
+    simp only [p1FirstEntry, List.any_cons]
+    cases p1Scalar O vf x <;> cases p1Scalar O kf k <;> simp [ih]
+
+/-- the site model and the accept/reject model of phase one agree: a site exists exactly for the
+    values `deserialize_single_field` rejects (every flat field kind, every scratch state) -/
+theorem p1Site_isSome (O : Oracles) (scr : List (Option String)) (name : String) (f : FieldDecl)
+    (v : PyVal) : (p1Site O scr name f v).isSome = p1Rejects O f v := by
+  have hpos : ∀ (fs : List FieldDecl) (xs : List PyVal),
+      (p1Positional O name fs xs).isSome = (decide (xs.length < fs.length) || p1Zip O fs xs) := by
+    intro fs xs
+    unfold p1Positional
+    by_cases h : xs.length < fs.length
+    · simp [h]
+    · simp [h, p1FirstZip_isSome]
+  have hset : ∀ xs : List PyVal, (p1SetBuild name xs).isSome = xs.any unhashableElem := by
+    intro xs
+    unfold p1SetBuild
+    cases xs.any unhashableElem <;> rfl
+  have hhom : ∀ (item : FieldDecl) (xs : List PyVal),
+      (p1Homog O scr name item xs).isSome = xs.any (p1Scalar O item) := by
+    intro item xs
+    simp [p1Homog, p1First_isSome]
+  cases f <;> simp only [p1Site, p1Rejects, p1ListLike]
+  case seqAny => cases listLike v <;> rfl
+  case seqOf => cases listLike v <;> simp [hhom]
+  case tupleOf => cases listLike v <;> simp [hhom]
+  case seqPos => cases listLike v <;> simp [hpos]
+  case tuplePos => cases listLike v <;> simp [hpos]
+  case setAny => cases listLike v <;> simp [hset]
+  case setOf =>
+    cases listLike v with
+    | none => rfl
+    | some xs =>
+      simp only []
+      have := hhom ‹FieldDecl› xs
+      cases h : p1Homog O scr name ‹FieldDecl› xs with
+      | some st => rw [h] at this; simp [← this]
+      | none => rw [h] at this; simp [← this, hset]
+  case mapAny => cases v <;> rfl
+  case mapOf => cases v <;> simp [p1FirstEntry_isSome]
+  all_goals (cases p1Scalar O _ v <;> rfl)
+
+theorem dropPre_isSome_append (a b : Text) : (dropPre a (a ++ b)).isSome = true := by
+  rw [dropPre_append]; rfl
+
+theorem nameIdx_prefix (name : String) (i : Nat) (t : Text)
+    (h : (dropPre (nameIdx name i) t).isSome = true) : (dropPre name.toList t).isSome = true := by
+  cases hd : dropPre (nameIdx name i) t with
+  | none => simp [hd] at h
+  | some r =>
+    have := dropPre_eq _ _ _ hd
+    rw [this, nameIdx, List.append_assoc]
+    exact dropPre_isSome_append _ _
+
+/-- the wrapper guarantee of `deserialize_list_like`, `deserialize_map` and of the fields' own
+    `_name` (since /repo 23519e1 without exception): EVERY phase-one site is `named` and its text
+    begins with ITS OWN field's name — for every flat field kind, every document value and EVERY
+    scratch state (stale names of shared item Field instances included) -/
+theorem p1_names_own_field (O : Oracles) (scr : List (Option String)) (name : String)
+    (f : FieldDecl) (v : PyVal) (s : P1Site) (h : p1Site O scr name f v = some s) :
+    s.kind = .named ∧ s.top = name ∧ s.namesOwnField = true := by
+  have hlit : ∀ (c : ErrCls) (tail : Text) (s : P1Site),
+      s = ⟨name, .named, some (name.toList ++ tail), c⟩ →
+        s.kind = .named ∧ s.top = name ∧ s.namesOwnField = true := by
+    intro c tail s hs
+    subst hs
+    exact ⟨rfl, rfl, by simp [P1Site.namesOwnField, dropPre_isSome_append]⟩
+  have hidx : ∀ i : Nat, (dropPre name.toList (nameIdx name i)).isSome = true := by
+    intro i; rw [nameIdx]; exact dropPre_isSome_append _ _
+  have helem : ∀ (sc : Option String) (i : Nat) (item : FieldDecl) (x : PyVal),
+      (dropPre name.toList (p1ElemHead sc name i item x)).isSome = true := by
+    intro sc i item x
+    unfold p1ElemHead
+    split
+    · exact hidx i
+    · exact hidx i
+    · split
+      · rename_i hp; exact nameIdx_prefix name i _ hp
+      · exact hidx i
+    · exact hidx i
+  have hhom : ∀ (item : FieldDecl) (xs : List PyVal) (s : P1Site),
+      p1Homog O scr name item xs = some s →
+        s.kind = .named ∧ s.top = name ∧ s.namesOwnField = true := by
+    intro item xs s hs
+    simp only [p1Homog, Option.map_eq_some_iff] at hs
+    obtain ⟨ix, _, hs⟩ := hs
+    subst hs
+    exact ⟨rfl, rfl, by simp [P1Site.namesOwnField, helem]⟩
+  have hpos : ∀ (fs : List FieldDecl) (xs : List PyVal) (s : P1Site),
+      p1Positional O name fs xs = some s →
+        s.kind = .named ∧ s.top = name ∧ s.namesOwnField = true := by
+    intro fs xs s hs
+    unfold p1Positional at hs
+    split at hs
+    · exact hlit _ ([':', ' '] ++ sGot) s (by simpa [List.append_assoc] using hs.symm)
+    · simp only [Option.map_eq_some_iff] at hs
+      obtain ⟨ifx, _, hs⟩ := hs
+      subst hs
+      refine ⟨rfl, rfl, ?_⟩
+      simp only [P1Site.namesOwnField, nameIdx, List.append_assoc]
+      exact dropPre_isSome_append _ _
+  have hbuild : ∀ (xs : List PyVal) (s : P1Site), p1SetBuild name xs = some s →
+      s.kind = .named ∧ s.top = name ∧ s.namesOwnField = true := by
+    intro xs s hs
+    unfold p1SetBuild at hs
+    split at hs
+    · exact hlit _ ([':', ' '] ++ sGot) s (by simpa [List.append_assoc] using (Option.some.inj hs).symm)
+    · simp at hs
+  have hll : ∀ (k : List PyVal → Option P1Site),
+      (∀ xs s, k xs = some s → s.kind = .named ∧ s.top = name ∧ s.namesOwnField = true) →
+      ∀ s, p1ListLike name v k = some s → s.kind = .named ∧ s.top = name ∧ s.namesOwnField = true := by
+    intro k hk' s hs
+    unfold p1ListLike at hs
+    cases hl : listLike v with
+    | none =>
+      rw [hl] at hs
+      exact hlit _ ([':', ' '] ++ sGot) s (by simpa [List.append_assoc] using hs.symm)
+    | some xs => rw [hl] at hs; exact hk' xs s hs
+  cases f <;> simp only [p1Site] at h
+  case seqAny => exact hll _ (fun _ _ hn => by simp at hn) s h
+  case seqOf => exact hll _ (fun xs s hs => hhom _ xs s hs) s h
+  case tupleOf => exact hll _ (fun xs s hs => hhom _ xs s hs) s h
+  case seqPos => exact hll _ (fun xs s hs => hpos _ xs s hs) s h
+  case tuplePos => exact hll _ (fun xs s hs => hpos _ xs s hs) s h
+  case setAny => exact hll _ (fun xs s hs => hbuild xs s hs) s h
+  case setOf =>
+    refine hll _ (fun xs s hs => ?_) s h
+    cases hh : p1Homog O scr name ‹FieldDecl› xs with
+    | some st => rw [hh] at hs; simp only [Option.some.injEq] at hs; subst hs; exact hhom _ xs _ hh
+    | none => rw [hh] at hs; exact hbuild xs s hs
+  case mapAny =>
+    cases v <;> simp only [Option.some.injEq] at h <;>
+      first
+      | exact hlit _ ([':', ' '] ++ sGot) s (by simpa [List.append_assoc] using h.symm)
+      | simp at h
+  case mapOf =>
+    cases v
+    case dict kvs =>
+      simp only [] at h
+      clear hll
+      induction kvs with
+      | nil => simp [p1FirstEntry] at h
+      | cons kv kvs ih =>
+        obtain ⟨k, x⟩ := kv
+        simp only [p1FirstEntry] at h
+        have hinner : ∀ (g : FieldDecl) (y : PyVal),
+            p1InnerSite O name g y = s → s.kind = .named ∧ s.top = name ∧ s.namesOwnField = true := by
+          intro g y hs
+          exact hlit _ [] s (by simpa [p1InnerSite] using hs.symm)
+        split at h
+        · exact hinner _ _ (Option.some.inj h)
+        · split at h
+          · exact hinner _ _ (Option.some.inj h)
+          · exact ih h
+    all_goals (simp only [Option.some.injEq] at h;
+               exact hlit _ ([':', ' '] ++ sGot) s (by simpa [List.append_assoc] using h.symm))
+  all_goals
+    (split at h
+     · simp only [Option.some.injEq] at h
+       subst h
+       refine ⟨rfl, rfl, ?_⟩
+       simp only [P1Site.namesOwnField, p1ScalarHead]
+       exact dropPre_isSome_append _ _
+     · simp at h)
+
+/-- the former findings `no-path:unnamed-inner-field:deser-collection` and
+    `wrong-field:stale-inner-name:deser-map` (fixed by /repo 23519e1): whatever scratch name the
+    shared inner Field instance carries (`Pct = Integer(maximum=100)` in `m1: Map[String, Pct]` and
+    `a2: Array[Pct]`, after `Bar(a2=[2], …)`), the rejection of `{'m1': {'a': 500}}` is raised
+    under `m1` -/
+theorem stale_shared_inner_name_example :
+    let pct : FieldDecl := .integer { max := some (Q.ofInt 100) }
+    let m1 : FieldDecl := .mapOf (.string none none none) pct {}
+    let doc : PyVal := .dict [(.str "a", .int 500)]
+    p1Site exOracles [none, none] "m1" m1 doc = some ⟨"m1", .named, some "m1".toList, .valueErr⟩ ∧
+    p1Site exOracles [none, some "a2_0"] "m1" m1 doc =
+      some ⟨"m1", .named, some "m1".toList, .valueErr⟩ := by
+  decide
+
+/-- the former finding `no-path:unhashable:deser-set` (fixed by /repo 23519e1): a Set without item
+    field reaches `set(values)` with an unhashable element and now reports it under its own name;
+    with an item field the element is rejected first, under its indexed path -/
+theorem set_build_site_examples :
+    p1Site exOracles [] "s" (.setAny false {}) (.list [.list [.int 1]]) =
+      some ⟨"s", .named, some "s: Got ".toList, .typeErr⟩ ∧
+    p1Site exOracles [none] "t" (.setOf false (.integer {}) {}) (.list [.int 1, .list [.int 1]]) =
+      some ⟨"t", .named, some "t_1".toList, .valueErr⟩ := by
   decide
 
 end Typedpy.C18
